@@ -624,29 +624,19 @@ func runReuseAs(res *core.Result) {
 				return []string{s}
 			},
 			lit: func(s string) []string { return []string{s} }}
-		zb := z.Body.List
-		// the zeroing twin ends with recv.Zero()
-		if len(zb) == len(nz.Body.List)+1 {
-			last, ok := zb[len(zb)-1].(*ast.ExprStmt)
-			isZero := false
-			if ok {
-				if c, ok := last.X.(*ast.CallExpr); ok && len(c.Args) == 0 {
-					if sel, ok := c.Fun.(*ast.SelectorExpr); ok && sel.Sel.Name == "Zero" {
-						isZero = true
-					}
-				}
-			}
-			if isZero {
-				zb = zb[:len(zb)-1]
-			}
-		}
-		ok := u.Nodes(nz.Type, z.Type) && u.Nodes(&ast.BlockStmt{List: nz.Body.List}, &ast.BlockStmt{List: zb})
+		// The zeroing twin additionally clears the storage (recv.Zero(),
+		// zero(data)), wherever the arm structure puts that, and may need a
+		// return the other twin can omit at the end of its body; neither is a
+		// difference between the twins.
+		nb := normaliseReuse(nz.Body.List, true)
+		zb := normaliseReuse(z.Body.List, true)
+		ok := u.Nodes(nz.Type, z.Type) && u.Nodes(&ast.BlockStmt{List: nb}, &ast.BlockStmt{List: zb})
 		if !ok {
 			res.Add(core.Finding{
 				Rule: "TWIN.sync",
 				Key:  fmt.Sprintf("TWIN.sync|mat.%s|reuseAs", recvT),
 				Pos:  core.Pos(u.posB), Func: "mat." + recvT + ".reuseAsZeroed",
-				Msg: fmt.Sprintf("%s.reuseAsNonZeroed and reuseAsZeroed ('must be kept in sync') differ beyond use/useZeroed and the trailing Zero(): %s (other side at %s)",
+				Msg: fmt.Sprintf("%s.reuseAsNonZeroed and reuseAsZeroed ('must be kept in sync') differ beyond use/useZeroed and the zeroing step: %s (other side at %s)",
 					recvT, u.msg, core.Pos(u.posA)),
 			})
 		} else {
@@ -859,4 +849,68 @@ func runShadow(res *core.Result) {
 	} else {
 		res.Count("shadow_twin_nodes", u.nodes)
 	}
+}
+
+// normaliseReuse drops zeroing statements (x.Zero(), zero(...)) from a
+// statement list, recursively, and then bare returns in terminal position.
+func normaliseReuse(list []ast.Stmt, terminal bool) []ast.Stmt {
+	return stripReturns(stripZero(list), terminal)
+}
+
+func mapBlocks(st ast.Stmt, f func([]ast.Stmt, bool) []ast.Stmt, last bool) ast.Stmt {
+	switch x := st.(type) {
+	case *ast.IfStmt:
+		cp := *x
+		body := *x.Body
+		body.List = f(x.Body.List, last)
+		cp.Body = &body
+		switch e := x.Else.(type) {
+		case *ast.BlockStmt:
+			eb := *e
+			eb.List = f(e.List, last)
+			cp.Else = &eb
+		case *ast.IfStmt:
+			cp.Else = mapBlocks(e, f, last)
+		}
+		return &cp
+	case *ast.BlockStmt:
+		cp := *x
+		cp.List = f(x.List, last)
+		return &cp
+	}
+	return st
+}
+
+func stripZero(list []ast.Stmt) []ast.Stmt {
+	var out []ast.Stmt
+	for _, st := range list {
+		if x, ok := st.(*ast.ExprStmt); ok {
+			if c, ok := x.X.(*ast.CallExpr); ok {
+				switch f := c.Fun.(type) {
+				case *ast.SelectorExpr:
+					if f.Sel.Name == "Zero" && len(c.Args) == 0 {
+						continue
+					}
+				case *ast.Ident:
+					if f.Name == "zero" || f.Name == "zeroC" {
+						continue
+					}
+				}
+			}
+		}
+		out = append(out, mapBlocks(st, func(l []ast.Stmt, _ bool) []ast.Stmt { return stripZero(l) }, false))
+	}
+	return out
+}
+
+func stripReturns(list []ast.Stmt, terminal bool) []ast.Stmt {
+	var out []ast.Stmt
+	for i, st := range list {
+		last := terminal && i == len(list)-1
+		if r, ok := st.(*ast.ReturnStmt); ok && last && len(r.Results) == 0 {
+			continue
+		}
+		out = append(out, mapBlocks(st, stripReturns, last))
+	}
+	return out
 }
